@@ -264,14 +264,31 @@ CODATA = {'electron_radius': 2.8179403262e-15, 'avogadro_number': 6.02214076e23,
 HC_KEV_ANGSTROM = 12.398419843
 
 
-def pin_constants(rel=1e-6):
-    """[(name, library value, CODATA value)] for constants farther than rel from CODATA."""
+# Values published by CODATA for the same constants (1998 ... 2022 adjustments; h in eV s and N_A are
+# exact since 2019).  The pinned tree carries the 2006 set.  A constant of the tree must BE one of these
+# (to 1e-11), not merely be near them: a transposed digit in r_e changes every SLD by 1e-9, far above
+# the 1e-10 tolerance of the calculators, and the reference would otherwise follow it.
+CODATA_RELEASES = {
+    'electron_radius': [2.817940285e-15, 2.817940325e-15, 2.8179402894e-15, 2.8179403267e-15,
+                        2.8179403227e-15, 2.8179403262e-15, 2.8179403205e-15],
+    'avogadro_number': [6.02214199e23, 6.0221415e23, 6.02214179e23, 6.02214129e23, 6.022140857e23, 6.02214076e23],
+    'plancks_constant': [4.13566727e-15, 4.13566743e-15, 4.13566733e-15, 4.135667516e-15, 4.135667662e-15,
+                         4.135667696e-15, 4.135667696923859e-15],
+    'speed_of_light': [299792458.0],
+}
+
+
+def pin_constants(rel=1e-6, exact=1e-11):
+    """[(name, library value, expected)] for constants farther than rel from CODATA 2018 or not equal
+    (to `exact`, relative) to any published CODATA value."""
     from periodictable import constants
     bad = []
     for name, want in CODATA.items():
         got = getattr(constants, name)
         if not abs(got - want) <= rel * abs(want):
             bad.append((name, got, want))
+        elif not any(abs(got - v) <= exact * abs(v) for v in CODATA_RELEASES[name]):
+            bad.append((name, got, 'one of the published CODATA values %r' % (CODATA_RELEASES[name],)))
     return bad
 
 
